@@ -83,3 +83,240 @@ Proof.
   { revert H. apply lrun_inv; [apply inv_wfail_ext | apply inv_wfail_int | intros g []]. }
   rewrite (I f Hin). apply orb_true_r.
 Qed.
+
+(* ---------- dispatch: the handlers ever started, their invocation events, the envelopes they come from ---------- *)
+Definition hsig (k : hnd) : bool * frame := (h_unary k, h_req k).
+Definition sigs (s : state) : list (bool * frame) := map hsig (hs s).
+
+Definition is_invoke (e : sev) : bool := match e with SvInvoke _ _ _ _ _ _ => true | _ => false end.
+
+Definition invoke_of (n : nat) (p : bool * frame) : sev :=
+  let (u, f) := p in SvInvoke n u (fid f) (f_mth f) (if u then body_tok f else 0) (md_tok f).
+
+Fixpoint invs_from (n : nat) (l : list (bool * frame)) : list sev :=
+  match l with
+  | [] => []
+  | p :: t => invoke_of n p :: invs_from (S n) t
+  end.
+
+(* what the read loop demands of an envelope before it starts a handler for it *)
+Definition req_ok (p : bool * frame) : Prop :=
+  let (u, f) := p in
+  if u then dispatch f = DUnary /\ md_bad f = false /\ (body_tok f <? 0) = false
+  else dispatch f = DStream /\ is_rst f = false /\ has_body f = false /\ has_trl f = false /\ md_bad f = false.
+
+Lemma invs_from_app n l x : invs_from n (l ++ [x]) = invs_from n l ++ [invoke_of (n + length l) x].
+Proof.
+  revert n. induction l as [|p l IH]; intros n; simpl.
+  - now rewrite Nat.add_0_r.
+  - rewrite IH. now rewrite <- plus_n_Sm.
+Qed.
+
+Lemma map_upd_same {A B} (g : A -> B) h k k' l :
+  nth_error l h = Some k -> g k' = g k -> map g (upd h k' l) = map g l.
+Proof.
+  revert h. induction l as [|a l IH]; intros [|h] Hn E; simpl in *; try discriminate; auto.
+  - inversion Hn; subst. now rewrite E.
+  - f_equal. now apply IH.
+Qed.
+
+Definition no_invoke (evs : list sev) : Prop := forall e, In e evs -> is_invoke e = false.
+
+Lemma filter_no_invoke l evs : no_invoke evs -> filter is_invoke (l ++ evs) = filter is_invoke l.
+Proof.
+  intros H. rewrite filter_app. replace (filter is_invoke evs) with (@nil sev); [now rewrite app_nil_r|].
+  symmetry. induction evs as [|e evs IH]; [reflexivity|]. simpl. rewrite (H e (or_introl eq_refl)).
+  apply IH. intros e' Hin. apply H. now right.
+Qed.
+
+(* every step either keeps the signature list and adds no invocation event, or appends one handler
+   together with its invocation event, for an envelope that was just read and qualifies *)
+Definition step_ok (s s' : state) : Prop :=
+  (exists evs, log s' = log s ++ evs /\ no_invoke evs /\ sigs s' = sigs s)
+  \/ (exists evs p, log s' = log s ++ evs ++ [invoke_of (length (hs s)) p] /\ no_invoke evs
+                    /\ sigs s' = sigs s ++ [p] /\ req_ok p).
+
+Ltac same_sig :=
+  left; eexists; split; [reflexivity|]; split;
+  [ intros ? Hin; simpl in Hin; repeat destruct Hin as [<- | Hin]; try reflexivity; contradiction
+  | unfold sigs; sproj; try reflexivity;
+    try (match goal with Hn : nth_error (hs _) ?h = Some ?k |- _ => apply (map_upd_same hsig h k _ _ Hn); reflexivity end) ].
+
+Lemma same_sig_nil s s' : log s' = log s -> sigs s' = sigs s -> step_ok s s'.
+Proof. intros E1 E2. left. exists []. rewrite app_nil_r. repeat split; auto. intros e []. Qed.
+
+Lemma step_ok_ext s a : inv_hdr s -> step_ok s (ext s a).
+Proof.
+  intros _. destruct a; simpl; try (apply same_sig_nil; reflexivity).
+  destruct (nth_error (hs s) h) as [k|] eqn:Hn; [|apply same_sig_nil; reflexivity].
+  destruct (h_pc k) eqn:Hg; try (apply same_sig_nil; reflexivity).
+  destruct (hstep_log s h k o) as [evs [E Hev]].
+  destruct (hstep_shape s h k o Hn Hg) as [k' [Hhs [Hu [_ [_ [_ [Hq _]]]]]]].
+  left. exists evs. split; [assumption|]. split.
+  - intros e Hin. specialize (Hev e Hin). destruct e; try contradiction; reflexivity.
+  - unfold sigs. rewrite Hhs. apply (map_upd_same hsig h k k' _ Hn). unfold hsig. now rewrite Hu, Hq.
+Qed.
+
+Lemma stream_dispatch_step s f :
+  dispatch f = DStream ->
+  (log (stream_dispatch s f) = log s /\ sigs (stream_dispatch s f) = sigs s)
+  \/ (log (stream_dispatch s f) = log s ++ [invoke_of (length (hs s)) (false, f)]
+      /\ sigs (stream_dispatch s f) = sigs s ++ [(false, f)] /\ req_ok (false, f)).
+Proof.
+  intros Hd. unfold stream_dispatch.
+  destruct (find_reg (fid f) (hs s) 0).
+  - left. destruct (is_rst f); [destruct (nth_error (hs s) n) eqn:Hn|]; sproj; split; auto.
+    unfold sigs; sproj. apply (map_upd_same hsig n h _ _ Hn). reflexivity.
+  - destruct (is_rst f) eqn:E1; [left; auto|].
+    destruct (has_body f) eqn:E2; [left; sproj; auto|].
+    destruct (has_trl f) eqn:E3; [left; auto|].
+    destruct (md_bad f) eqn:E4; [left; sproj; auto|].
+    right. sproj. split; [reflexivity|]. split.
+    + unfold sigs; sproj. rewrite map_app. reflexivity.
+    + simpl. auto.
+Qed.
+
+Lemma start_unary_step s w f :
+  dispatch f = DUnary ->
+  (log (start_unary s w f) = log s /\ sigs (start_unary s w f) = sigs s)
+  \/ (log (start_unary s w f) = log s ++ [invoke_of (length (hs s)) (true, f)]
+      /\ sigs (start_unary s w f) = sigs s ++ [(true, f)] /\ req_ok (true, f)).
+Proof.
+  intros Hd. unfold start_unary.
+  destruct (negb (has_hdr f)); [left; sproj; auto|].
+  destruct (md_bad f) eqn:E1; [left; sproj; auto|].
+  destruct (body_tok f <? 0) eqn:E2; [left; sproj; auto|].
+  right. sproj. split; [reflexivity|]. split.
+  - unfold sigs; sproj. rewrite map_app. reflexivity.
+  - simpl. auto.
+Qed.
+
+Lemma step_ok_int s i s' : inv_hdr s -> rule_of i s = Some s' -> step_ok s s'.
+Proof.
+  intros [_ Ihd] H. destruct i; simpl in H.
+  all: try (start_rule H; sproj; first [apply same_sig_nil; reflexivity | same_sig]; fail).
+  - (* r_rd_read *)
+    unfold r_rd_read in H. destruct (rd s); try discriminate. destruct (inbox s) as [|f rest].
+    + destr_in H; inv_some H; apply same_sig_nil; reflexivity.
+    + destruct (dispatch f) eqn:Ed; inv_some H; try (sproj; same_sig).
+      destruct (stream_dispatch_step (add_log (set_inbox s rest) [SvRead f]) f Ed) as [[E1 E2] | [E1 [E2 E3]]].
+      * left. exists [SvRead f]. rewrite E1, E2. sproj. repeat split; auto.
+        intros e [<- | []]. reflexivity.
+      * right. exists [SvRead f], (false, f). rewrite E1, E2. sproj. rewrite <- app_assoc. repeat split; auto.
+        -- intros e [<- | []]. reflexivity.
+        -- apply E3.
+        -- apply E3.
+        -- apply E3.
+        -- apply E3.
+  - (* r_rd_offer *)
+    unfold r_rd_offer in H. destruct (rd s) eqn:Erd; try discriminate.
+    destruct (find_idle (wk s) 0); [|discriminate]. inv_some H.
+    destruct (start_unary_step (add_log (set_rd s RdRead) [SvJob n f]) n f Ihd) as [[E1 E2] | [E1 [E2 E3]]].
+    + left. exists [SvJob n f]. rewrite E1, E2. sproj. repeat split; auto. intros e [<- | []]. reflexivity.
+    + right. exists [SvJob n f], (true, f). rewrite E1, E2. sproj. rewrite <- app_assoc. repeat split; auto.
+      * intros e [<- | []]. reflexivity.
+      * apply E3.
+      * apply E3.
+  - (* r_rd_wait *)
+    start_rule H. apply same_sig_nil; [reflexivity|]. unfold sigs; sproj.
+    match goal with Hn : nth_error (hs _) ?h = Some ?k |- _ => apply (map_upd_same hsig h k _ _ Hn); reflexivity end.
+  - (* r_h_unreg *)
+    unfold r_h_unreg in H. destruct (nth_error (hs s) h) as [k|] eqn:Hn; [|discriminate].
+    destruct (h_pc k); try discriminate. destruct (mu_free s); [|discriminate].
+    assert (E0 : map hsig (upd h (hset_pc k HDead) (hs s)) = map hsig (hs s))
+      by (apply (map_upd_same hsig h k _ _ Hn); reflexivity).
+    destruct (find_reg _ _ _) as [g|]; [destruct (nth_error _ g) as [kg|] eqn:Hg|]; inv_some H.
+    + left. exists [SvUnreg g]. sproj. repeat split; auto.
+      * intros e [<- | []]. reflexivity.
+      * unfold sigs; sproj. rewrite (map_upd_same hsig g kg _ _ Hg) by reflexivity. exact E0.
+    + apply same_sig_nil; [reflexivity | exact E0].
+    + apply same_sig_nil; [reflexivity | exact E0].
+  - (* r_rd_cws_pick *)
+    start_rule H. apply same_sig_nil; [reflexivity|]. unfold sigs; sproj.
+    match goal with Hn : nth_error (hs _) ?h = Some ?k |- _ => apply (map_upd_same hsig h k _ _ Hn); reflexivity end.
+Qed.
+
+(* the invariant: the invocation events in the log are exactly one per handler ever started, in order, carrying
+   the id, method, payload and metadata of the envelope that started it; and that envelope qualified *)
+Definition inv_dispatch (s : state) : Prop :=
+  filter is_invoke (log s) = invs_from 0 (sigs s) /\ (forall p, In p (sigs s) -> req_ok p).
+
+Lemma sigs_length s : length (sigs s) = length (hs s).
+Proof. unfold sigs. apply map_length. Qed.
+
+Lemma inv_dispatch_step s s' : inv_dispatch s -> step_ok s s' -> inv_dispatch s'.
+Proof.
+  intros [D1 D2] [[evs [E1 [E2 E3]]] | [evs [p [E1 [E2 [E3 E4]]]]]].
+  - split; rewrite E3; [|assumption]. rewrite E1. rewrite filter_no_invoke by assumption. assumption.
+  - split; rewrite E3.
+    + rewrite E1, app_assoc, filter_app, filter_no_invoke by assumption.
+      rewrite invs_from_app, D1. simpl. rewrite sigs_length. f_equal.
+      destruct p as [u f]. reflexivity.
+    + intros q Hin. apply in_app_or in Hin. destruct Hin as [Hin | [<- | []]]; auto.
+Qed.
+
+Theorem srv_dispatch nw ls s : lrun (init_n nw) ls = Some s -> inv_dispatch s.
+Proof.
+  intros H.
+  assert (G : inv_hdr s /\ inv_dispatch s).
+  { revert H. apply (lrun_inv (fun s => inv_hdr s /\ inv_dispatch s)).
+    - intros s0 a [I1 I2]. split; [now apply inv_hdr_ext | eapply inv_dispatch_step; [eassumption | now apply step_ok_ext]].
+    - intros s0 i s1 [I1 I2] Hr. split; [eapply inv_hdr_int; eassumption|].
+      eapply inv_dispatch_step; [eassumption | eapply step_ok_int; eassumption].
+    - split; [apply inv_hdr_init | split; [reflexivity | intros p []]]. }
+  apply G.
+Qed.
+
+
+(* ---------- the dispatch decision of the read loop, stated exactly ---------- *)
+Ltac crush_iff :=
+  repeat split; intros;
+  repeat match goal with
+         | H : _ /\ _ |- _ => destruct H
+         | H : _ \/ _ |- _ => destruct H
+         | H : exists _, _ |- _ => destruct H
+         end;
+  try congruence; try discriminate; try lia; eauto.
+
+Lemma stream_dispatch_iff s f :
+  rd s = RdRead ->
+  (length (hs (stream_dispatch s f)) = S (length (hs s))
+   <-> (find_reg (fid f) (hs s) 0 = None /\ is_rst f = false /\ has_body f = false /\ has_trl f = false /\ md_bad f = false))
+  /\ (rd (stream_dispatch s f) = RdRst f
+      <-> (find_reg (fid f) (hs s) 0 = None /\ is_rst f = false /\ (has_body f = true \/ (has_trl f = false /\ md_bad f = true))))
+  /\ ((exists h, rd (stream_dispatch s f) = RdFwd h f) <-> (exists h, find_reg (fid f) (hs s) 0 = Some h /\ is_rst f = false)).
+Proof.
+  intros Erd. unfold stream_dispatch.
+  destruct (find_reg (fid f) (hs s) 0) as [h|] eqn:Ef.
+  - destruct (is_rst f) eqn:E1; [destruct (nth_error (hs s) h)|]; sproj; rewrite ?upd_length, ?Erd; crush_iff.
+  - destruct (is_rst f) eqn:E1; [rewrite Erd; crush_iff|].
+    destruct (has_body f) eqn:E2; [sproj; crush_iff|].
+    destruct (has_trl f) eqn:E3; [rewrite Erd; crush_iff|].
+    destruct (md_bad f) eqn:E4; [sproj; crush_iff|].
+    sproj. rewrite app_length, Erd. simpl. crush_iff.
+Qed.
+
+Theorem srv_dispatch_stream_step s f rest :
+  rd s = RdRead -> inbox s = f :: rest -> dispatch f = DStream ->
+  exists s', r_rd_read s = Some s'
+    /\ (length (hs s') = S (length (hs s))
+        <-> (find_reg (fid f) (hs s) 0 = None /\ is_rst f = false /\ has_body f = false /\ has_trl f = false /\ md_bad f = false))
+    /\ (rd s' = RdRst f
+        <-> (find_reg (fid f) (hs s) 0 = None /\ is_rst f = false /\ (has_body f = true \/ (has_trl f = false /\ md_bad f = true))))
+    /\ ((exists h, rd s' = RdFwd h f) <-> (exists h, find_reg (fid f) (hs s) 0 = Some h /\ is_rst f = false)).
+Proof.
+  intros Erd Ei Ed. unfold r_rd_read. rewrite Erd, Ei, Ed. eexists. split; [reflexivity|].
+  apply (stream_dispatch_iff (add_log (set_inbox s rest) [SvRead f]) f). exact Erd.
+Qed.
+
+(* the reset the read loop hands to the writer from resetStream is the reset for that envelope: same id and
+   method, source and destination swapped *)
+Theorem srv_reset_step s f s' :
+  rd s = RdRst f -> r_rd_rst s = Some s' -> crashed s' = false ->
+  wr s' = WrWrite (rst_reply f) /\ rd s' = RdRead
+  /\ eid (f_env (rst_reply f)) = fid f /\ f_src (rst_reply f) = f_dst f /\ f_dst (rst_reply f) = f_src f
+  /\ f_mth (rst_reply f) = f_mth f /\ erst (f_env (rst_reply f)) = true.
+Proof.
+  intros Erd H Hc. unfold r_rd_rst in H. rewrite Erd in H. destruct (wr s); try discriminate.
+  destruct (has_hdr f); inv_some H; [|discriminate]. sproj. repeat split; reflexivity.
+Qed.
